@@ -33,6 +33,7 @@ UNITS.append(("frames", __import__("translator.frames", fromlist=["frames"]).fra
 UNITS.append(("forwarding", __import__("translator.forwarding", fromlist=["forwarding"]).forwarding, "GemVerif/Gen/Forwarding.lean"))  # C11
 UNITS.append(("constraints", __import__("translator.constraints", fromlist=["constraints"]).constraints, "GemVerif/Gen/Constraints.lean"))  # C16
 UNITS.append(("nets", __import__("translator.nets", fromlist=["nets"]).nets, "GemVerif/Gen/Nets.lean"))  # C03 (C03Gen)
+UNITS.append(("geminis", __import__("translator.geminis", fromlist=["geminis"]).geminis, "GemVerif/Gen/Geminis.lean"))  # C01/C02/C13 (C01Gen)
 
 if __name__ == "__main__":
     main()
